@@ -61,28 +61,31 @@ Definition p2e_text (t : option text) (i : Z) : Z :=
 
 (* one feature of a non-array structure; `feature.domainType.name == uima.tcas.Annotation` for begin/end is
    "the structure is an annotation" because a chain holds one definition per name (C11) *)
+Definition is_vnone (v : val) : bool := match v with VNone => true | _ => false end.
+(* the value in document units: begin/end of an annotation go through its sofa's converter (non-ints pass through) *)
+Definition doc_val (c : cas) (s : schema) (t : tname) (f : fsobj) (fd : fdecl) (v : val) : res val :=
+  if isa s t T_ANNOTATION && is_offset_name (fd_xname fd) then
+    match slot f "sofa" with
+    | VSofa n => match find_sofa c n with
+                 | Some sf => Ok (match v with VInt i => VInt (p2e_text (s_text sf) i) | _ => v end)
+                 | None => Err EAttribute end
+    | _ => Err EAttribute
+    end
+  else Ok v.
+Definition enc_value (c : cas) (s : schema) (fd : fdecl) (v1 : val) : res (list (string * json)) :=
+  let x := fd_xname fd in
+  if String.eqb (fd_range fd) T_FLOAT || String.eqb (fd_range fd) T_DOUBLE then
+    match v1 with
+    | VFlt xx => Ok (match special_flt xx with Some sp => [(numkey x, JStr sp)] | None => [(x, JFlt xx)] end)
+    | VInt z => Ok [(x, JInt z)]
+    | _ => Err EType
+    end
+  else if is_primitive s (fd_range fd) then do j <- plain_json v1 ;; Ok [(x, j)]
+  else do j <- ref_json c v1 ;; Ok [(refkey x, j)].
 Definition enc_feature (c : cas) (s : schema) (t : tname) (f : fsobj) (fd : fdecl) : res (list (string * json)) :=
-  match slot f (fd_name fd) with
-  | VNone => Ok []
-  | v =>
-    let x := fd_xname fd in
-    do v1 <- (if isa s t T_ANNOTATION && is_offset_name x then
-                match slot f "sofa" with
-                | VSofa n => match find_sofa c n with
-                             | Some sf => Ok (match v with VInt i => VInt (p2e_text (s_text sf) i) | _ => v end)
-                             | None => Err EAttribute end
-                | _ => Err EAttribute
-                end
-              else Ok v) ;;
-    if String.eqb (fd_range fd) T_FLOAT || String.eqb (fd_range fd) T_DOUBLE then
-      match v1 with
-      | VFlt xx => Ok (match special_flt xx with Some sp => [(numkey x, JStr sp)] | None => [(x, JFlt xx)] end)
-      | VInt z => Ok [(x, JInt z)]
-      | _ => Err EType
-      end
-    else if is_primitive s (fd_range fd) then do j <- plain_json v1 ;; Ok [(x, j)]
-    else do j <- ref_json c v1 ;; Ok [(refkey x, j)]
-  end.
+  let v := slot f (fd_name fd) in
+  if is_vnone v then Ok []                       (* `if value is None: continue` *)
+  else do v1 <- doc_val c s t f fd v ;; enc_value c s fd v1.
 
 Definition id_json (f : fsobj) : json := match o_id f with Some i => JInt i | None => JNull end.
 (* `if fs.elements:` *)
@@ -239,16 +242,21 @@ Definition ser_types (s : schema) (mode : tsmode) (used : list tname) : res (lis
 
 (* ------------------------------------------------------------------------------------------ serialize *)
 
-Definition found_fs (c : cas) (w : wstate) : list (xid * oid) := sort_ids (w_all w).
 Definition fs_at (c : cas) (io : xid * oid) : res fsobj :=
   match hget (c_heap c) (snd io) with Some f => Ok f | None => Err EAttribute end.
 
-Definition save_json (L : lex) (s : schema) (mode : tsmode) (c : cas) : res (json * cas) :=
+(* the views loop, then the traversal: the CAS before the traversal, what the loop wrote, the traversal's result *)
+Definition save_found (L : lex) (s : schema) (c : cas) : res (cas * list json * list (string * json) * wstate) :=
   do st <- fold_left (step_view L s) (c_views c) (Ok (c, [], [])) ;;
   let '(c1, sofa_fs, views) := st in
   do w <- find_all_fs true s c1 ;;
+  Ok (c1, sofa_fs, views, w).
+
+Definition save_json (L : lex) (s : schema) (mode : tsmode) (c : cas) : res (json * cas) :=
+  do r <- save_found L s c ;;
+  let '(c1, sofa_fs, views, w) := r in
   let c2 := cas_after c1 w in
-  let found := found_fs c2 w in
+  let found := sort_ids (w_all w) in
   do fss <- mapM (fun io => do f <- fs_at c2 io ;; do m <- enc_fs L s c2 f ;; Ok (JObj m)) found ;;
   do used <- mapM (fun io => do f <- fs_at c2 io ;; Ok (o_type f)) found ;;
   do types <- ser_types s mode used ;;
@@ -272,8 +280,11 @@ Definition canon_fs (s : schema) (c : cas) (f : fsobj) : res cfs :=
   match sch_find s t with
   | None => Err ETypeNotFound
   | Some ti =>
-    do fv <- mapM (fun fd => do v <- cv_json c (slot f (fd_name fd)) ;; Ok (fd_xname fd, v)) (ti_feats ti) ;;
-    Ok (mkCfs t (sort_feats fv))
+    if is_array_name t then      (* Type.all_features of an array type: the one feature `elements` *)
+      do v <- cv_json c (slot f "elements") ;; Ok (mkCfs t [("elements", v)])
+    else
+      do fv <- mapM (fun fd => do v <- cv_json c (slot f (fd_name fd)) ;; Ok (fd_xname fd, v)) (ti_feats ti) ;;
+      Ok (mkCfs t (sort_feats fv))
   end.
 Definition canon_sofa (c : cas) (v : cview) : res csofa :=
   let sf := v_sofa v in
@@ -282,7 +293,7 @@ Definition canon_sofa (c : cas) (v : cview) : res csofa :=
   Ok (mkCsofa (s_xid sf) (s_num sf) (s_name sf) (s_text sf) (s_mime sf) (s_uri sf) arr (zsort ms)).
 Definition sofa_arrays (c : cas) : list oid :=
   flat_map (fun v => match s_arr (v_sofa v) with Some o => [o] | None => [] end) (c_views c).
-(* canonical content given the structures the traversal found (ids assigned) *)
+(* canonical content given the structures to list; every one of them must carry an id *)
 Definition canon_of (s : schema) (c : cas) (found : list oid) : res ccas :=
   do fss <- mapM (fun o => match hget (c_heap c) o with
                            | Some f => match o_id f with
@@ -291,11 +302,12 @@ Definition canon_of (s : schema) (c : cas) (found : list oid) : res ccas :=
                            | None => Err EAttribute end) found ;;
   do sofas <- mapM (canon_sofa c) (c_views c) ;;
   Ok (mkCcas (sort_by cs_id sofas) (sort_by fst fss)).
-(* "the same CAS" in the JSON view: every structure reachable from the indexed ones (collections included) and the
-   sofa byte arrays, by id, references as ids *)
+(* "the same CAS" in the JSON view: the sofa byte arrays and every structure reachable from the indexed ones
+   (collections included), by id, references as ids.  Defined for a CAS whose reachable structures all carry ids (any CAS
+   after a save or a load); the listing order before sorting is the writer's. *)
 Definition canon_json (s : schema) (c : cas) : res ccas :=
   do w <- find_all_fs true s c ;;
-  canon_of s (cas_after c w) (sofa_arrays c ++ map snd (w_all w)).
+  canon_of s c (sofa_arrays c ++ map snd (sort_ids (w_all w))).
 
 (* ------------------------------------------------------------------------------------------ deserialize *)
 
@@ -452,7 +464,11 @@ Definition obj_okb (s : schema) (c : cas) (f : fsobj) : bool :=
   match sch_find s t with
   | None => false
   | Some ti =>
-    if is_array_name t then match slot f "elements" with VList _ => true | _ => false end
+    if is_array_name t then
+      match slot f "elements" with
+      | VList l => if String.eqb t T_FLOAT_ARRAY || String.eqb t T_DOUBLE_ARRAY
+                   then forallb (fun v => match v with VFlt _ => true | _ => false end) l else true
+      | _ => false end
     else
       forallb (fun fd => name_okb (fd_xname fd)) (ti_feats ti) && snodup (map fd_xname (ti_feats ti))
       && (if isa s t T_ANNOTATION then
@@ -476,19 +492,36 @@ Definition obj_okb (s : schema) (c : cas) (f : fsobj) : bool :=
 Definition wf_jsonb (s : schema) (c : cas) : bool :=
   match find_all_fs true s c with
   | Ok w =>
-    let c' := cas_after c w in
-    let sofas := map v_sofa (c_views c') in
+    let sofas := map v_sofa (c_views c) in
     snodup (map s_name sofas)
-    && znodup (map s_xid sofas ++ map fst (w_all w)
-               ++ flat_map (fun o => match hget (c_heap c') o with Some f => match o_id f with Some i => [i] | None => [] end | None => [] end)
-                           (sofa_arrays c'))
+    && znodup (map s_xid sofas)
     && forallb (fun sf => match s_text sf with Some t => text_okb t | None => true end) sofas
-    && forallb (fun io => match hget (c_heap c') (snd io) with
-                          | Some f => obj_okb s c' f && opt_eqb Z.eqb (o_id f) (Some (fst io))
+    && forallb (fun io => match hget (c_heap c) (snd io) with
+                          | Some f => obj_okb s c f && opt_eqb Z.eqb (o_id f) (Some (fst io))
                           | None => false end) (w_all w)
-    && forallb (fun o => match hget (c_heap c') o with
-                         | Some f => String.eqb (o_type f) T_BYTE_ARRAY && obj_okb s c' f
+    && forallb (fun o => match hget (c_heap c) o with
+                         | Some f => String.eqb (o_type f) T_BYTE_ARRAY && obj_okb s c f
                                      && match o_id f with Some _ => true | None => false end
-                         | None => false end) (sofa_arrays c')
+                         | None => false end) (sofa_arrays c)
+  | _ => false
+  end.
+(* all ids of the document are pairwise distinct *)
+Definition ids_distinctb (s : schema) (c : cas) : bool :=
+  match find_all_fs true s c with
+  | Ok w => znodup (map s_xid (map v_sofa (c_views c)) ++ map fst (w_all w)
+                    ++ flat_map (fun o => match hget (c_heap c) o with
+                                          | Some f => match o_id f with Some i => [i] | None => [] end
+                                          | None => [] end) (sofa_arrays c))
+  | _ => false
+  end.
+(* repeating the traversal on the CAS the save leaves behind finds the same structures under the same ids
+   (ReachProofs: find_all_exact + ids_assigned; evaluated as a premise here) *)
+Definition pair_eqb (a b : xid * oid) : bool := Z.eqb (fst a) (fst b) && N.eqb (snd a) (snd b).
+Definition stableb (L : lex) (s : schema) (c : cas) : bool :=
+  match save_found L s c with
+  | Ok (c1, _, _, w) =>
+    match find_all_fs true s (cas_after c1 w) with
+    | Ok w' => list_eqb pair_eqb (sort_ids (w_all w')) (sort_ids (w_all w))
+    | _ => false end
   | _ => false
   end.
